@@ -87,6 +87,8 @@ def replay(rec, ctx):
 
 
 CFG = """SPECIFICATION Spec
+CONSTANTS
+  Deep = {deep}
 INVARIANT LaplacianLimit
 INVARIANT AnnihilatesConstants
 INVARIANT EmitCase
@@ -94,7 +96,7 @@ INVARIANT EmitCase
 
 
 def run(v):
-    res = core.run_tlc("GridOps", CFG, workers=1, seed=v.seed, timeout=1800)
+    res = core.run_tlc("GridOps", CFG.format(deep="TRUE" if v.tier == "thorough" else "FALSE"), workers=1, seed=v.seed, timeout=3000)
     core.tlc_must_pass(res, "GridOps")
     v.add_tlc(res, "GridOps")
     cases = [r for r in res.records if "case" in r]
